@@ -327,24 +327,40 @@ def permitted(err):
     return isinstance(err, RuntimeError) and "positive definite" in str(err)
 
 
+def _timed(fn, seconds):
+    """fn() under two alarms: `seconds` of CPU time of this process (ITIMER_PROF: a busy loop in the code under test burns CPU
+    whatever the load on the machine, while a process that is merely starved by other jobs does not) and a wall-clock backstop
+    of 40 x seconds for a call that blocks without using CPU."""
+    def on_alarm(signum, frame):
+        raise NonTermination(f"no result after {seconds} s of CPU time")
+    old_p = signal.signal(signal.SIGPROF, on_alarm)
+    old_r = signal.signal(signal.SIGALRM, on_alarm)
+    signal.setitimer(signal.ITIMER_PROF, seconds)
+    signal.setitimer(signal.ITIMER_REAL, 40 * seconds)
+    try:
+        return fn()
+    finally:
+        signal.setitimer(signal.ITIMER_PROF, 0)
+        signal.setitimer(signal.ITIMER_REAL, 0)
+        signal.signal(signal.SIGPROF, old_p)
+        signal.signal(signal.SIGALRM, old_r)
+
+
 def attempt(fn, seconds=5.0):
     """(value, None) or (None, exception).  A watchdog (main thread only) turns a call that does not return within
-    `seconds` into NonTermination instead of hanging the driver."""
+    `seconds` of CPU time into NonTermination instead of hanging the driver; before it is believed the call is repeated with
+    three times the budget, so that a slow machine is never reported as a hang."""
     guard = threading.current_thread() is threading.main_thread() and hasattr(signal, "setitimer")
     if _hangs[0] > MAX_HANGS:
         raise Abort()
-    if guard:
-        def on_alarm(signum, frame):
-            raise NonTermination(f"no result after {seconds} s")
-        old = signal.signal(signal.SIGALRM, on_alarm)
-        signal.setitimer(signal.ITIMER_REAL, seconds)
     try:
-        return fn(), None
+        if not guard:
+            return fn(), None
+        try:
+            return _timed(fn, seconds), None
+        except NonTermination:
+            return _timed(fn, 3 * seconds), None
     except Exception as e:          # noqa: BLE001 - the drivers classify the exception
         if isinstance(e, NonTermination):
             _hangs[0] += 1
         return None, e
-    finally:
-        if guard:
-            signal.setitimer(signal.ITIMER_REAL, 0)
-            signal.signal(signal.SIGALRM, old)
